@@ -37,8 +37,10 @@ def check(ctx: Ctx) -> None:
     num_attr, den_attr = "self.time_signature_numerator", "self.time_signature_denominator"
     ua = UnitAnalysis(p, fi)
     nz = Normaliser()
+    # local definitions (e.g. a `capacity` variable computed once) are substituted into the expressions judged below
+    nz.run_block([s_ for s_ in fi.node.body if isinstance(s_, ast.Assign) and len(s_.targets) == 1 and isinstance(s_.targets[0], ast.Name)])
     # symbolic capacity
-    cap_q = nz.norm(ast.parse(f"{num_attr} * 4 / {den_attr}", mode="eval").body)
+    cap_q = Normaliser().norm(ast.parse(f"{num_attr} * 4 / {den_attr}", mode="eval").body)
     ppqn = Sym.atom("PPQN")
 
     compares = []
